@@ -5,6 +5,8 @@ Property theorems only.  Helper lemmas live in `Lemmas/Codec.lean`.
 -/
 import PygacModel.Spec.Layouts
 import PygacModel.Generated.Layouts
+import PygacModel.Spec.PodEpochs
+import PygacModel.Generated.PodEpochs
 import PygacModel.Lemmas.Codec
 namespace PygacModel.C01
 open PygacModel
@@ -37,6 +39,17 @@ theorem strides_and_offsets :
     Generated.offsetGacKlm = Spec.klmGac.size ∧ Generated.offsetLacKlm = Spec.klmLac.size ∧
     Generated.offsetGacPod = Spec.podGac.size ∧ Generated.offsetLacPod = Spec.podLac.size := by
   decide +kernel
+
+/-- The POD header layout chosen for every start date 1978..2030 (extracted from the code by
+exhaustive probing) is the format's: first layout before 1992-09-08, second up to and
+including 1994-11-15, third afterwards. -/
+theorem pod_header_epochs : Generated.podEpochSegments = Spec.podEpochSegments := by decide +kernel
+
+/-- The segment table and the closed form agree on every day in the probed range. -/
+theorem pod_header_epoch_closed_form :
+    ∀ d ∈ [2922, 8285, 8286, 9084, 9085, 22279],
+      Spec.podHeaderEpoch d = ((Spec.podEpochSegments.filter (fun s => s.1 ≤ d)).getLast?.map (·.2)).getD 0 := by
+  decide
 
 /-! ## 2. Every layout tiles its record: sorted by offset the fields are gap-free,
 overlap-free and end exactly at the record size. -/
